@@ -42,7 +42,7 @@ CLAIMS = {
     "C13": ("loop-shape and recursion-table analysis + sign analysis of denominators over CFG control dependence",
             "LOOP: every loop on the query path has a bounded shape, the three call-graph cycles match the frozen recursion "
             "table (kd-tree shrinking ranges, Bezier one-shot retry, stratified tian2019 re-entry); A5: only std::exception "
-            "types are thrown; shape of guards: two-sided NaN-absorbing clamp before acos, the 2D wrapper's walk over the result uses the producer's widths, release-active arity checks of per-section and "
+            "types are thrown; shape of guards: two-sided NaN-absorbing clamp before acos, the 2D wrapper's walk over the result uses the producer's widths, the section index is the one the trench curve reported (K2.section-index), release-active arity checks of per-section and "
             "input-indexed tables, sibling models agree on their guards; DIV.guard: in the model functions no floating-point division has a "
             "denominator that vanishes at depth zero / at the planet's centre / on the ridge / on the slab surface or trench line / where a laterally "
             "varying bound reaches zero or two of them coincide, unless a controlling condition excludes it (model functions and the gravity / "
